@@ -9,7 +9,8 @@
  *     2 = the thread polls myth_testcancel and is cancelled by main; each thread stores value v under
  *     the slot-th created key for its (slot, v) pairs, in order (slot -1: no store).
  *     A pair (slot, v) with slot <= -2 re-creates slot j = -2 - slot: the thread deletes that key and
- *     creates a new one (with destructor DTOR[j] when v = 1, without when v = 0); the free list is LIFO, so
+ *     creates a new one (with destructor DTOR[j] when v = 1, without when v = 0; v = 2: the key is only
+ *     deleted and NOT created again - reported as "rec j:-1"); the free list is LIFO, so
  *     the new key has the same index unless other threads interfere - therefore W < 0 means |W| workers
  *     and the threads are run ONE AFTER THE OTHER (created, cancelled if kind 2, joined).
  * Output:
@@ -52,8 +53,8 @@ static void do_sets(struct targ * t) {
     if (t->slot[i] <= -2) {
       int j = -2 - t->slot[i]; myth_key_t nk = -1;
       myth_key_delete(g_key[j]);
-      if (myth_key_create(&nk, t->val[i] ? DTOR[j] : 0) != 0) nk = -1;
-      g_key[j] = nk;
+      if (t->val[i] == 2) nk = -1;              /* deleted, not created again: g_key[j] keeps the dead index */
+      else { if (myth_key_create(&nk, t->val[i] ? DTOR[j] : 0) != 0) nk = -1; g_key[j] = nk; }
       if (t->nrec < 64) { t->rec_slot[t->nrec] = j; t->rec_idx[t->nrec] = nk; t->nrec++; }
       continue;
     }
